@@ -208,7 +208,7 @@ class Session:
         x = float(x)
         if x == 0.0:
             return Form()
-        f = _frac_close(x / math.pi, 96)
+        f = _frac_close(x / math.pi, 96, tol=2e-10)  # the library rounds shifts to 10 decimals (3.1415926536): read as the pi-multiple it denotes
         if f is not None:
             return Form({}, f, 0)
         f = _frac_close(x, 1 << 20)
@@ -1098,6 +1098,7 @@ SHIM_NOTES = [
     "autoray backend alias: SymC scalars dispatch to numpy",
     "default.qubit create_initial_state result viewed as dtype=object",
     "qp.math.allclose/isclose on symbolic data are exact equalities (the |x|<=atol slab is outside the claim)",
+    "float angle constants within 2e-10 (relative to pi) of a multiple of pi/96 are read as that exact multiple (the library rounds shifts to 10 decimals)",
     "PauliSentence.dot keeps an object buffer for object-dtype vectors (np.zeros_like in pennylane.pauli.pauli_arithmetic)",
 ]
 
